@@ -17,7 +17,7 @@ THEOREMS = ['YatimlModel.C07.' + t for t in [
     'C07_dumps_valid_string', 'C07_numbers_are_json', 'C07_string_token_denotes',
     'C07_rendered_text_parses', 'C07_emitted_text_is_json', 'C07_same_value_all_options',
     'C07_number_texts_wf', 'C07_non_ascii_unescaped', 'C07_unicode_mode_keeps_non_ascii',
-    'C07_dumps_json_is_projection']]
+    'C07_dumps_json_is_projection', 'C07_int_texts_are_numbers']]
 RULE = ('(a) every (top-of-stack state x event kind x indent x current indent) step of the real '
         'Dumper.emit_json against the model step (exhaustive over that finite domain); (b) every '
         'plain-data tree shape up to a node bound x indent in {None,0..8} x ensure_ascii, plus '
